@@ -23,6 +23,15 @@ import (
 // option set (a pure function of seed and idx, identical in every process).
 func c09Source(seed, idx uint64) (src string, optName string, opts func(sample *envs.Env, opSample *OpEnv) []expr.Option, useOpEnv bool) {
 	r := runner.NewRng(seed, 909, idx)
+	if idx%33 == 32 {
+		// reads of large, unsorted environment collections (a membership or
+		// search fast path must not reorder or otherwise touch them)
+		src = r.Pick([]string{"S in Strs ? Strs[0] : T", "T in Strs", "A in Ints ? Ints[0] : B", "X in Floats", "filter(Strs, {# in Strs})[0]", "count(Ints, {# in Ints2})", "Strs[0] + Strs[len(Strs) - 1]", "all(Strs, {# in Strs}) and Ints[0] in Ints", "AnyS in Strs or AnyI in Ints"})
+		if r.Bool() {
+			return src, "Env(*Env)", func(s *envs.Env, _ *OpEnv) []expr.Option { return []expr.Option{expr.Env(s)} }, false
+		}
+		return src, "Env(Env)", func(s *envs.Env, _ *OpEnv) []expr.Option { return []expr.Option{expr.Env(*s)} }, false
+	}
 	if idx%11 == 10 {
 		// the environment type in value and in pointer form (methods with a
 		// pointer receiver exist for the pointer form only): what one form
@@ -335,6 +344,10 @@ func c09Purity(c *runner.Ctx, idx uint64) {
 			e1, e2 := envs.New(&envs.Log{}), envs.New(&envs.Log{})
 			envs.Fill(e1, style, runner.NewRng(seed))
 			envs.Fill(e2, style, runner.NewRng(seed))
+			if k == 0 {
+				c09Grow(e1, seed)
+				c09Grow(e2, seed)
+			}
 			env1, env2, snapTarget = *e1, *e2, e1
 			if optName == "Env(*Env)" {
 				env1, env2 = e1, e2
@@ -535,5 +548,27 @@ func c09ConstExprResults(c *runner.Ctx, idx uint64) {
 				c.Violate("runs-differ:constexpr-result:"+k.src, fmt.Sprintf("three runs on equal environments returned %v", outs), cas)
 			}
 		}
+	}
+}
+
+// c09Grow makes the collections of a random environment large (33..96
+// elements, unsorted) for the first of the three snapshotted
+// runs, so that paths taken only for long slices are observed by the
+// before/after snapshots too. Both copies of an environment are grown from
+// the same seed.
+func c09Grow(e *envs.Env, seed uint64) {
+	r := runner.NewRng(seed, 9096)
+	n := 33 + r.Intn(64)
+	e.Strs, e.Ints, e.Ints2, e.Floats = nil, nil, nil, nil
+	for i := 0; i < n; i++ {
+		e.Strs = append(e.Strs, fmt.Sprintf("w%03d", (n-i)*7%101))
+		e.Ints = append(e.Ints, (n-i)*13%97-20)
+		e.Ints2 = append(e.Ints2, i*5%31)
+		e.Floats = append(e.Floats, float64((n-i)*11%89)/4)
+	}
+	if r.Bool() {
+		e.S, e.AnyS = e.Strs[r.Intn(n)], e.Strs[r.Intn(n)]
+		e.A, e.AnyI = e.Ints[r.Intn(n)], e.Ints[r.Intn(n)]
+		e.X = e.Floats[r.Intn(n)]
 	}
 }
